@@ -8,19 +8,76 @@ from .smt import discharge
 from .values import Unsupported
 
 
-def verify_contracts(reg, keys=None, repo=None, z3_ms=5000, cvc5_ms=20000, verbose=False):
-    repo = repo or Repo()
+_JOB = {}
+WEIGHT = {'reader.read_expr': 14, 'tokens.next_token': 10, 'category.categorize': 8, 'reader.read_arg_required': 5,
+          'reader.read_env': 5, 'tokens.tokenize': 6, 'reader.read_command': 6, 'reader.read_args': 4, 'reader.read_item': 4,
+          'reader.read_arg_optional': 3, 'reader.read_arg': 3, 'tokens.tokenize_spacers': 4, 'reader.read_math_env': 2}
+
+
+def _group_job(keys):
+    """one group of contracts: symbolic execution in this process, discharge in an inner pool of forked workers"""
+    reg, repo, z3_ms, cvc5_ms, inner = _JOB['reg'], _JOB['repo'], _JOB['z3_ms'], _JOB['cvc5_ms'], _JOB['inner']
     eng = Engine(repo, reg)
     t0 = time.time()
-    todo = [c for c in reg.all_contracts() if not c.trusted and (keys is None or c.key in keys or c.qual in keys or any(c.qual.startswith(k) for k in keys if k.endswith('.')))]
-    for c in todo:
+    per = {}
+    for key in keys:
+        c = [c for c in reg.all_contracts() if c.key == key][0]
+        t1 = time.time()
+        n0 = len(eng.obls)
         if c.qual not in repo.funcs:
-            eng.unsupported[c.key] = 'function not found in the working tree'
+            eng.unsupported[key] = 'function not found in the working tree'
             continue
         eng.verify(c)
+        per[key] = {'symex_s': round(time.time() - t1, 2), 'obligations': len(eng.obls) - n0}
     t_sym = time.time() - t0
-    res = discharge(eng.obls, z3_ms=z3_ms, cvc5_ms=cvc5_ms)
-    return eng, res, t_sym, time.time() - t0 - t_sym
+    from .smt import OblInfo, Result
+    res = discharge(eng.obls, z3_ms=z3_ms, cvc5_ms=cvc5_ms, procs=inner)
+    out = [Result(OblInfo(r.obl), r.verdict, r.backend, r.secs, r.model, r.queries) for r in res]
+    return out, dict(eng.unsupported), dict(eng.stats), per, t_sym, time.time() - t0 - t_sym
+
+
+class _EngSummary:
+    def __init__(self):
+        self.unsupported = {}
+        self.stats = {}
+        self.per_function = {}
+
+
+def verify_contracts(reg, keys=None, repo=None, z3_ms=5000, cvc5_ms=20000, verbose=False, procs=None):
+    """the selected contracts are split into groups; each group is symbolically executed in its own process and
+    its obligations are discharged by that process's pool of forked solver workers"""
+    import os
+    from concurrent.futures import ProcessPoolExecutor
+    import multiprocessing as mp
+    repo = repo or Repo()
+    todo = [c.key for c in reg.all_contracts() if not c.trusted and (
+        keys is None or c.key in keys or c.qual in keys or any(c.qual.startswith(k) for k in keys if k.endswith('.')))]
+    ncpu = procs or min(16, os.cpu_count() or 4)
+    ngroups = max(1, min(4, len(todo), ncpu // 4 or 1))
+    _JOB.update(reg=reg, repo=repo, z3_ms=z3_ms, cvc5_ms=cvc5_ms, inner=max(1, ncpu // ngroups))
+    groups = [[] for _ in range(ngroups)]
+    load = [0] * ngroups
+    for k in sorted(todo, key=lambda k: -WEIGHT.get(k.split('[')[0], 1)):
+        g = load.index(min(load))
+        groups[g].append(k)
+        load[g] += WEIGHT.get(k.split('[')[0], 1)
+    summ = _EngSummary()
+    results = []
+    t_sym = t_solve = 0.0
+    if ngroups == 1:
+        outs = [_group_job(groups[0])]
+    else:
+        with ProcessPoolExecutor(ngroups, mp_context=mp.get_context('fork')) as ex:
+            outs = list(ex.map(_group_job, groups))
+    for res, unsup, stats, per, ts, td in outs:
+        results += res
+        summ.unsupported.update(unsup)
+        for k, v in stats.items():
+            summ.stats[k] = summ.stats.get(k, 0) + v
+        summ.per_function.update(per)
+        t_sym = max(t_sym, ts)
+        t_solve = max(t_solve, td)
+    return summ, results, t_sym, t_solve
 
 
 def main(argv):
